@@ -42,8 +42,9 @@ MUTANTS = [
  ("no-unlink-masked", "toasty/pyramid.py", "            try:\n                os.unlink(p)\n            except (FileNotFoundError, OSError):\n                pass", "            pass", ["C15", "C02"], []),
  ("no-index-swap", "toasty/pipeline/__init__.py", "                filenames[-1] = 'index.wtml'\n                filenames[index_index] = temp", "                pass", ["C18"], []),
  ("rename-before-transfer", "toasty/pipeline/__init__.py", "            print(f'publishing {uniq_id} ...')\n", "            print(f'publishing {uniq_id} ...')\n            os.rename(os.path.join(todo_dir, uniq_id), os.path.join(done_dir, uniq_id)); todo_dir, _td = done_dir, todo_dir\n", ["C18"], []),
- ("put-item-not-atomic", "toasty/pipeline/local_io.py", "        tpath = fpath + '.part'", "        tpath = fpath", ["C18"], []),
- ("replace-before-copy", "toasty/pipeline/local_io.py", "        with open(tpath, 'wb') as f:\n            shutil.copyfileobj(source, f)\n\n        os.replace(tpath, fpath)", "        open(tpath, 'wb').close()\n        os.replace(tpath, fpath)\n        with open(fpath, 'r+b') as f:\n            shutil.copyfileobj(source, f)", ["C18"], []),
+ ("put-item-not-atomic", "toasty/pipeline/local_io.py", "            tpath = '%s.%d.part' % (fpath, n)\n\n            try:\n                f = open(tpath, 'xb')", "            tpath = fpath\n\n            try:\n                f = open(tpath, 'wb')", ["C18"], []),
+ ("put-item-fixed-temp-name", "toasty/pipeline/local_io.py", "                f = open(tpath, 'xb')", "                f = open(tpath, 'wb')", ["C18"], []),
+ ("replace-before-copy", "toasty/pipeline/local_io.py", "        with f:\n            shutil.copyfileobj(source, f)\n\n        os.replace(tpath, fpath)", "        f.close()\n        os.replace(tpath, fpath)\n        with open(fpath, 'r+b') as f:\n            shutil.copyfileobj(source, f)", ["C18"], []),
  ("index-first", "toasty/pipeline/__init__.py", "                temp = filenames[-1]\n                filenames[-1] = 'index.wtml'", "                temp = filenames[0]\n                filenames[0] = 'index.wtml'", ["C18"], []),
  ("refresh-any-file", "toasty/pipeline/cli.py", 'if mgr._pipeio.check_exists(uniq_id, "index.wtml"):', 'if mgr._pipeio.check_exists(uniq_id):', ["C18"], []),
  ("mt-worker-no-flip", "toasty/multi_tan.py", "            continue\n\n        if image.get_parity_sign() != tile_parity_sign:\n            image.flip_parity()", "            continue\n", ["C09"], []),
